@@ -9,6 +9,7 @@ T = {
  "C04": ("stateful generation past terminal + exhaustive 16x status request table on copies (state-diff oracle)", "Histories continued past the first terminal status with generated suffixes; every status requested on copies of reachable states; rejected => serialize() byte-identical.", "only 'rejected => no effect' and terminal finality are asserted"),
  "C05": ("lock-step differential (never-persisted twin vs persisted/restored twin) over generated histories", "Differential: two conductors receive the same calls, one is persisted/restored at generated points through a real JSON round trip; any observable difference is a violation.", "persistence = json round trip of serialize()"),
  "C10": ("stateful generation with one cancel at a generated position + ledger/model invariant", "Cancellation invariant (no offers, canceling/canceled by ledger, final canceled, output renders) on generated histories.", "definitions cannot fail expressions (C11 owns that); dormant != in flight"),
+ "C19": ("cross-process differential replay under different PYTHONHASHSEED values + idempotence probe at every poll point", "Generated definitions (accepted and rejected mutants) and histories replayed in 4 interpreters with different hash seeds, digests compared step by step; three consecutive get_next_tasks() compared at every poll point with state diff.", "children use the same library-free driver; canonical JSON for objects, ordered comparison for lists"),
  "C18": ("stateful generation + temporal invariant over consecutive persisted states", "Append-only / frozen-record invariant over serialize()['state'] after every call of generated histories.", "with-items rerun reuses its record by design"),
 }
 LATER = {}
